@@ -183,6 +183,7 @@ pub struct Exec {
     pub sm_done: bool,
     clients: Vec<Client>,
     pub app_set: Rc<FMutex<VecAppSet>>,
+    pub storage: Rc<FMutex<VStorage>>,
     last_completed: Option<u32>,
     pub steps: usize,
     pub lost_wakes: Vec<u32>,
@@ -230,6 +231,7 @@ impl Exec {
         let config = make_config(&setup, &keys);
         let clock = VClock(w.clone());
         let app_set = Rc::new(FMutex::new(VecAppSet::new(setup.apps.clone())));
+        let storage = Rc::new(FMutex::new(VStorage(w.clone())));
         let cup = if setup.cup {
             Some(StandardCupv2Handler::new(&keys.public_keys()))
         } else {
@@ -244,7 +246,7 @@ impl Exec {
             VInstaller(w.clone()),
             VTimer(w.clone()),
             VMetrics(w.clone()),
-            Rc::new(FMutex::new(VStorage(w.clone()))),
+            storage.clone(),
             config,
             app_set.clone(),
             cup,
@@ -276,6 +278,7 @@ impl Exec {
             sm_done: false,
             clients: vec![],
             app_set,
+            storage,
             last_completed: None,
             steps: 0,
             lost_wakes: vec![],
@@ -391,6 +394,43 @@ impl Exec {
                 };
                 w.lock().unwrap().log.push(Obs::Ctl(CtlObs::Reply { client: idx, seq, reply }));
             }
+        };
+        self.clients.push(Client {
+            fut: Some(Box::pin(fut)),
+            wake: new_flag(),
+        });
+        idx
+    }
+
+    /// An embedder task that shares the storage and the app set with the state machine (both are
+    /// handed to the builder as `Rc<Mutex<..>>`): it takes the storage lock, waits for its own I/O
+    /// (a gate) while holding it, then takes the app-set lock - the documented order - and releases both.
+    pub fn add_embedder(&mut self) -> usize {
+        let idx = self.clients.len();
+        let task = idx + 1;
+        let w = self.w.clone();
+        let storage = self.storage.clone();
+        let app_set = self.app_set.clone();
+        let fut = async move {
+            let gate = {
+                let mut g = w.lock().unwrap();
+                g.cur_task = task;
+                g.new_op(OpKind::Gate, idx as u64).1
+            };
+            gate.await;
+            let s = storage.lock().await;
+            w.lock().unwrap().log.push(Obs::Note("embedder holds the storage lock".into()));
+            let io = {
+                let mut g = w.lock().unwrap();
+                g.cur_task = task;
+                g.new_op(OpKind::Gate, idx as u64).1
+            };
+            io.await;
+            let a = app_set.lock().await;
+            w.lock().unwrap().log.push(Obs::Note("embedder holds storage and app set".into()));
+            drop(a);
+            drop(s);
+            w.lock().unwrap().log.push(Obs::Note("embedder released both".into()));
         };
         self.clients.push(Client {
             fut: Some(Box::pin(fut)),
